@@ -333,7 +333,7 @@ Section Proofs.
         - assert (Nb : b <> sb).
           { intros ->. unfold in_post in IP. rewrite Nat.eqb_refl in IP. cbn in IP. apply Nat.ltb_ge in IP.
             fold B in E, Last. pose proof (nth_error_lt _ _ _ _ Hinv). destruct (Nat.eq_dec pc idx) as [->|]; [|lia].
-            rewrite Hinv in E. inversion E; subst i. discriminate. }
+            rewrite Hinv in E. injection E as <-. exact (Bool.diff_false_true J). }
           destruct (existsb (N.eqb (N.of_nat L)) succs).
           + rewrite lead_phis_map_fix, LX, map_length. split; [|reflexivity].
             rewrite (phi_vals_fix _ (N.of_nat b) (N.of_nat b) e'); [exact Pv'| |right; split; [reflexivity|split; unfold sbN, nN; lia]].
